@@ -85,7 +85,7 @@ void onOpen(const std::string& abs) {
   if (abs.compare(0, g_root.size(), g_root) != 0) return;
   int k = g_open_count++;
   for (auto& f : g_faults)
-    if (!f.done && f.tick == g_tick && f.at_open == k) applyFault(f);
+    if (!f.done && f.tick == g_tick && f.at_open == k && f.op != "vanish_on_readdir") applyFault(f);
 }
 
 std::string redirect(const char* path) {
@@ -158,11 +158,26 @@ FILE* fopen64(const char* path, const char* mode) {
 }
 FILE* fopen(const char* path, const char* mode) { return fopen64(path, mode); }
 
+// fault "vanish_on_readdir": the entry is removed right after readdir() returned it, i.e. between
+// the directory read and the next access to the entry (fstatat in the d_type-less branch, openat else)
+static void onReaddir(DIR* d, const char* name) {
+  if (g_root.empty() || g_in_fault) return;
+  std::string abs = fdPath(dirfd(d)) + "/" + name;
+  for (auto& f : g_faults) {
+    if (!f.done && f.op == "vanish_on_readdir" && f.tick == g_tick && abs == g_root + "/" + f.path) {
+      g_in_fault = true;
+      vh::rmrf(abs);
+      f.done = true;
+      g_in_fault = false;
+    }
+  }
+}
 struct dirent* readdir(DIR* d) {
   using fn = struct dirent* (*)(DIR*);
   static fn real = (fn)dlsym(RTLD_NEXT, "readdir");
   struct dirent* e = real(d);
   if (e && g_dtype_unknown) e->d_type = DT_UNKNOWN;
+  if (e) onReaddir(d, e->d_name);
   return e;
 }
 struct dirent64* readdir64(DIR* d) {
@@ -170,6 +185,7 @@ struct dirent64* readdir64(DIR* d) {
   static fn real = (fn)dlsym(RTLD_NEXT, "readdir64");
   struct dirent64* e = real(d);
   if (e && g_dtype_unknown) e->d_type = DT_UNKNOWN;
+  if (e) onReaddir(d, e->d_name);
   return e;
 }
 
@@ -188,7 +204,8 @@ int sigtimedwait(const sigset_t*, siginfo_t*, const struct timespec* ts) {
   g_open_count = 0;
   if (g_tick >= g_ticks_total) return SIGTERM;
   vh::advanceNs((ts ? ts->tv_sec : 5) * 1000000000LL);
-  for (auto& f : g_faults) if (!f.done && f.tick == g_tick && f.at_open < 0) applyFault(f);
+  for (auto& f : g_faults)
+    if (!f.done && f.tick == g_tick && f.at_open < 0 && f.op != "vanish_on_readdir") applyFault(f);
   errno = EAGAIN;
   return -1;
 }
